@@ -429,6 +429,16 @@ def reifyValue (std : Stdlib) : Nat → FOpts → Ty → Val → Outcome GoVal
        | none => raise .expectedObject
        | some sub => reifyMapT std n fo.opts [] t none sub)
     | .slice t => sliceMerge std n fo t none v
+    | .array sz t =>
+      -- a fixed-size array that has to be created: a fresh one is filled like an existing one (a null setting falls
+      -- through to reifyPrimitive's zero value)
+      if v.isNilPrim then reifyPrimitiveT std fo (.array sz t) v
+      else
+        let arr := castArr v
+        if arr.length != sz then raise .arraySizeMismatch
+        else do
+          let xs' ← doArray std n fo t 0 (List.replicate sz (zeroOf t)) arr
+          finishArray std fo (.array xs')
     | .regexp =>
       -- regexp.Regexp is a struct: an object (or list) setting is "unpacked" into its unexported fields, i.e. not at all
       (match toCfg? v with
